@@ -571,6 +571,14 @@ def extra_cases(chk, how, count):
 		tb = {"names": ["id", "mgr", "dept", "lid"], "cols": [ids, mgr, dept, [f"E{i}" for i in range(n)]]}
 		lon, ron = rng.choice([(["mgr"], ["id"]), (["dept", "mgr"], ["dept", "id"]), (["mgr", "dept"], ["id", "dept"]), (["id"], ["id"]), (["dept"], ["dept"])])
 		chk.case("self_join", {"table": tb, "lon": lon, "ron": ron, "how": how, "key_mode": rng.choice(["name", "vector"])}, "self-join")
+	# directed: a right table whose key REPEATS (so many_to_one / one_to_one are rejected) or is unique, every derivation, every first expectation
+	for first_expect in ("many_to_one", "one_to_one", "many_to_many", "one_to_many"):
+		for derive in ("same", "stack", "gather", "copy-then-edit", "edit-in-place", "sort-two-keys", "sort-key", "mask"):
+			for rk in ([1, 2, 2, 1], [1, 2, 3, 4]):
+				left = {"names": ["k", "lid"], "cols": [[2, 1, None, 2], ["L0", "L1", "L2", "L3"]]}
+				right = {"names": ["g", "r", "rid"], "cols": [["x", "y", "x", "y"], list(rk), ["R0", "R1", "R2", "R3"]]}
+				chk.case("derived_right", {"left": left, "right": right, "how": how, "first_expect": first_expect, "derive": derive, "then": ["inner", "left", "full"] if how != "inner" else ["inner"],
+					"key_mode": "name" if derive in ("same", "stack") else "vector", "seed": 7}, "derived-right-directed")
 	for _ in range(count):
 		nl, nr = rng.choice([1, 2, 3, 4]), rng.choice([2, 3, 4])
 		rk = rng.sample([1, 2, 3, 4, 5], nr) if rng.random() < 0.6 else [rng.choice([1, 2, 3]) for _ in range(nr)]
